@@ -1925,6 +1925,10 @@ class Interp:
                 raise PyRaise(ExcVal("SyntaxError", (str(ex),)))
             except (ValueError, RecursionError, MemoryError) as ex:
                 raise PyRaise(ExcVal(type(ex).__name__, (str(ex),)))
+        if name in ("ast.iter_child_nodes", "ast.walk", "ast.iter_fields", "ast.dump", "ast.unparse") and len(args) >= 1 and isinstance(args[0], ast.AST) and not kwargs:
+            # structure of a concrete syntax tree: the host module is the reference
+            r_ = getattr(ast, name.split(".", 1)[1])(*args)
+            return r_ if isinstance(r_, str) else list(r_)
         if name in ("math.isfinite", "math.isnan", "math.isinf", "isfinite", "isnan", "isinf") and len(args) == 1 and (isinstance(args[0], Unknown) or type(args[0]).__name__ in ("Lin", "Iv")):
             # symbolic numbers stand for finite reals (tables that want NaN / inf pass the concrete value)
             return name.endswith("isfinite")
